@@ -104,50 +104,49 @@ def rule_M2(ctx, R):
 
 
 def rule_Q1(ctx, R):
-    res = RuleResult("Q1", "every lock_api call is made inside the try closure of handle_unwind whose handler kills (poisons) the "
-                           "same lock, and nowhere else in the crate")
+    res = RuleResult("Q1", "every lock_api operation any entry function can reach is executed inside a handle_unwind try scope whose "
+                           "handler kills the lock it belongs to; a panic in it kills that lock and keeps unwinding")
+    from rules_ts import entry_fns
     leaves = leaf_locks(ctx)
-    allowed_tops = set()
-    for adt, name, f in rawlock_impl_fns(ctx, leaves):
-        allowed_tops.add(f["id"])
+    leaf_impl = set(f["id"] for adt, name, f in rawlock_impl_fns(ctx, leaves))
+    nraw = 0
+    for f in entry_fns(ctx):
         paths, err, I = ctx.paths(f)
-        if err:
+        if err or not paths:
             continue
         has_raw = False
         bad = None
         for p in paths:
             for e in p.ev("RAW"):
+                if not (e["op"] in RAW_SEM or e["op"].startswith(("lock", "try_lock", "unlock", "downgrade", "upgrade", "bump"))):
+                    continue     # queries such as is_locked() neither acquire nor release
                 has_raw = True
-                before = p.events[:e["i"]]
-                if not any(b["k"] == "CATCH_BEGIN" for b in before) or any(b["k"] == "CAUGHT" for b in before):
-                    bad = "raw `%s` is not inside a handle_unwind try closure" % e["op"]
-                # if this raw op unwound, the path must kill self and resume
+                owner = e.get("owner") or ("a1.*" if f["id"] in leaf_impl else None)
+                # inside an open catch scope?
+                depth = 0
+                for b in p.events[:e["i"]]:
+                    if b["k"] == "CATCH_BEGIN":
+                        depth += 1
+                    elif b["k"] in ("CATCH_END", "CAUGHT"):
+                        depth -= 1
+                if depth <= 0:
+                    bad = (e, "raw `%s` is not executed inside a handle_unwind try scope: a panic in it is not turned into a kill" % e["op"])
+                    continue
                 after = p.events[e["i"] + 1:]
+                after = [a for a in after if not a.get("derived")]
                 if after and after[0]["k"] == "UNWIND_AT":
                     kinds = [a["k"] for a in after]
-                    if "CAUGHT" not in kinds or not any(a["k"] == "KILL" and a["recv"] == "a1.*" for a in after):
-                        bad = "a panic in raw `%s` does not kill the lock" % e["op"]
+                    if "CAUGHT" not in kinds or not any(a["k"] == "KILL" and (owner is None or a["recv"] == owner) for a in after):
+                        bad = (e, "a panic in raw `%s` does not kill the lock" % e["op"])
                     elif p.kind != "unwind":
-                        bad = "a panic in raw `%s` is swallowed" % e["op"]
+                        bad = (e, "a panic in raw `%s` is swallowed" % e["op"])
         if has_raw:
+            nraw += 1
             if bad:
-                res.bad(Violation("Q1", f["path"], name, bad, *_floc(f)))
+                res.bad(Violation("Q1", f["path"], "raw-call:" + bad[0]["op"], bad[1], bad[0].get("file"), bad[0].get("line")))
             else:
-                res.ok("%s::%s" % (adt, name))
-    # no other *entry* function executes a lock_api operation (private helpers, marker-trait impls etc. are seen inlined;
-    # queries such as is_locked() neither acquire nor release: only acquiring/releasing operations are restricted)
-    from rules_ts import entry_fns
-    for f in entry_fns(ctx):
-        if f["id"] in allowed_tops:
-            continue
-        paths, err, I = ctx.paths(f)
-        for p in paths or []:
-            bad_e = next((e for e in p.ev("RAW") if e["op"] in RAW_SEM or e["op"].startswith(("lock", "try_lock", "unlock", "downgrade", "upgrade", "bump"))), None)
-            if bad_e is not None:
-                res.bad(Violation("Q1", f["path"], "raw-call:" + bad_e["op"], "lock_api operation `%s` is executed outside a RawLock impl "
-                                  "of a leaf lock: a panic in it is not turned into a kill" % bad_e["op"], bad_e.get("file"), bad_e.get("line")))
-                break
-    res.need(9, "HL ops containing a raw call")
+                res.ok(f["path"])
+    res.need(9, "entry functions executing a lock_api operation")
     return res
 
 
@@ -214,11 +213,17 @@ def rule_X1(ctx, R):
             raws = p.ev("RAW")
             tries = p.ev("TRY")
             v = p.value
+
+            def same(v_, rid):
+                # the result itself, or - when the code branched on it (bool -> enum -> bool) - the literal it was found to be
+                if v_ and v_[0] == "op" and v_[1] == rid:
+                    return True
+                return bool(v_) and v_[0] == "const" and isinstance(v_[1], bool) and p.facts.get(rid) is v_[1]
             if raws:
-                if not (v and v[0] == "op" and v[1] == raws[0].get("result")):
+                if not same(v, raws[0].get("result")):
                     bad = "returned value %r is not the raw try's result" % (v,)
             elif tries:
-                if not (v and v[0] == "op" and v[1] == tries[0].get("result")):
+                if not same(v, tries[0].get("result")):
                     bad = "returned value %r is not the delegated try's result" % (v,)
         if bad:
             res.bad(Violation("X1", f["path"], name, bad, *_floc(f)))
@@ -332,7 +337,8 @@ def lock_list_field(ctx, adt):
     """index of the cached lock-list field (Vec<&dyn RawLock>) of a sorting collection, if any"""
     for i, f in enumerate(ctx.F.adts[adt]["variants"][0]["fields"]):
         t = f["ty"]
-        if t["k"] == "adt" and t["path"].endswith("Vec") and any(x["k"] == "dyn" and x.get("principal") == RL for x in ty_walk(t)):
+        if t["k"] == "adt" and (t["path"].endswith("Vec") or t["path"].endswith("Box")) and \
+                any(x["k"] == "dyn" and x.get("principal") == RL for x in ty_walk(t)):
             return i
     return None
 
@@ -359,6 +365,11 @@ def run_on_self_list(ctx, f, m, elem_ty=None, by="ref", model_vecs=False, const_
     I.model_vecs = model_vecs
     I.loop_limit = m + 4
     I.const_params = dict(const_params or {})
+    # every const generic of the analysed function / its impl stands for the list length (`[T; N]`, whatever N is called)
+    m_val = next(iter(I.const_params.values()), m)
+    for g in f.get("generics") or []:
+        if g.get("kind") == "const":
+            I.const_params.setdefault(g["name"], m_val)
     st_ = State()
     mir = f["mir"]
     t1 = mir["locals"][1]["ty"]
